@@ -523,6 +523,9 @@ def guarded_inc_hyps(func, use, names):
 # ---------------------------------------------------------------------------------------
 # path-sensitive proving inside one function (acyclic paths, scalar stores tracked)
 
+ASSIGN_OPS_B = ("=", "+=", "-=", "*=", "/=", "%=", "|=", "&=", "^=", "<<=", ">>=")
+
+
 def loop_stored_names(func):
     """{loop header block: set of scalar names / member keys stored inside the loop}"""
     cfg = func.cfg
@@ -554,16 +557,227 @@ def loop_stored_names(func):
     return out
 
 
-ASSIGN_OPS_B = ("=", "+=", "-=", "*=", "/=", "%=", "|=", "&=", "^=", "<<=", ">>=")
+
+
+def _reentry_conds(func, h, body):
+    """For a bottom-tested loop: the (condition id, truth) pairs that held when the back edge
+    to header h was taken, as far back as no store intervenes; None when not determinable."""
+    cfg = func.cfg
+    latches = [b for b in body if h in cfg.blocks[b].succ]
+    if len(latches) != 1:
+        return None
+    out = []
+    nxt, b = h, latches[0]
+    for _ in range(8):
+        blk = cfg.blocks[b]
+        for e in blk.ev:
+            n = func.nodes.get(e)
+            if n is None:
+                continue
+            if (n["k"] == "bin" and n["op"] in ASSIGN_OPS_B) or (
+                    n["k"] == "un" and n["op"] in ("post++", "pre++", "post--", "pre--")) or (
+                    n["k"] == "var"):
+                return out if out else None
+        br = cfg.branch(b)
+        if br and br[1] != br[2]:
+            if nxt == br[1]:
+                out.append((br[0], True))
+            elif nxt == br[2]:
+                out.append((br[0], False))
+        preds = [q for q in blk.pred if q in body]
+        if len(preds) != 1 or b == h:
+            break
+        nxt, b = b, preds[0]
+    return out if out else None
+
+
+class _St:
+    __slots__ = ("subst", "hyps", "byid", "epoch")
+
+    def __init__(self, subst=None, hyps=None, byid=None, epoch=None):
+        self.subst = subst if subst is not None else {}
+        self.hyps = hyps if hyps is not None else []
+        self.byid = byid if byid is not None else {}
+        self.epoch = epoch if epoch is not None else {}
+
+    def copy(self):
+        return _St(dict(self.subst), list(self.hyps), dict(self.byid), dict(self.epoch))
+
+
+def _last_events(f):
+    """the final event of every path into the exit block"""
+    lasts = []
+    stack = [b_ for b_ in f.cfg.blocks.values() if f.cfg.exit in b_.succ]
+    seen_b = set()
+    while stack:
+        b_ = stack.pop()
+        if b_.id in seen_b:
+            continue
+        seen_b.add(b_.id)
+        if b_.ev:
+            lasts.append(b_.ev[-1])
+        else:
+            stack += [f.cfg.blocks[q] for q in b_.pred]
+    return lasts
+
+
+
+
+def call_summary(g, kw=None, depth=0, cache_key=None):
+    """Exit states of a helper in its own names: [(subst, hyps, return Lin or None)], or None
+    when it has too many paths.  Loops inside are havoced like anywhere else."""
+    ck = (cache_key, depth)
+    cache = g.__dict__.setdefault("_summ_cache", {})    # lives and dies with the Func
+    if ck in cache:
+        return cache[ck][1]
+    from . import lin as _lin
+    out = []
+    kw = dict(kw or {})
+    try:
+        for subst, hyps, items in path_states(g, "exit", max_paths=400, _depth=depth + 1, **kw):
+            rl = None
+            rets = [g.nodes.get(x[1]) for x in items if x[0] == "ev"]
+            rets = [x for x in rets if x is not None and x["k"] == "return"]
+            rexpr = rets[-1].get("e") if rets else None
+            if rexpr is not None:
+                byid = {g.nodes[x[1]]["id"]: x[2] for x in items if x[0] == "br"}
+                rx = strip_casts(rexpr)
+                _lin._COND_RES[0] = byid
+                try:
+                    if (rx["k"] == "bin" and rx["op"] in ("<", "<=", ">", ">=", "==", "!=", "&&", "||")) or \
+                            (rx["k"] == "un" and rx["op"] == "!"):
+                        # a truth value: one exit state per outcome, with what it implies
+                        for t_ in (True, False):
+                            hy = hyps + cmp_constraints(rx, t_, subst)
+                            if _lin.feasible(hy):
+                                out.append((subst, hy, Lin(k=1 if t_ else 0)))
+                        continue
+                    rl = linearize(rx, subst)
+                finally:
+                    _lin._COND_RES[0] = None
+                if rl is None:
+                    rl = Lin({"?ret": 1})
+            out.append((subst, hyps, rl))
+    except OverflowError:
+        out = None
+    if out is not None and len(out) > 24:
+        out = None
+    cache[ck] = (kw, out)        # keeps kw alive so that its id stays unique
+    return out
+
+
+def _map_summary(func, call, g, summ, st, version):
+    """Translate one exit state of helper g into the caller's state at the call: a new _St, or
+    None when an atom cannot be translated."""
+    import re as _re
+    subst_g, hyps_g, rl = summ
+    tag = "@c%d" % call["id"]
+    params = [p_["name"] for p_ in g.params]
+    if len(params) != len(call["args"]):
+        return None
+    args = [strip_casts(a) for a in call["args"]]
+    glocals = set(params)
+    for n in g.walk():
+        if n["k"] == "var":
+            glocals.add(n["name"])
+    cur = lambda k_: st.subst.get(k_) or Lin({k_: 1})
+    argmap = {}
+    for q, a in zip(params, args):
+        argmap[q] = a
+
+    def caller_key(atom):
+        """caller lvalue key for a helper lvalue key, or None"""
+        if atom.isidentifier():
+            return None if atom in glocals else atom
+        m = _re.match(r"^\(\*(\w+)\)$", atom)
+        if m and m.group(1) in argmap:
+            a = argmap[m.group(1)]
+            if a["k"] == "ref":
+                return "(*%s)" % a["name"]
+            if a["k"] == "un" and a["op"] == "&" and a["e"]["k"] == "ref":
+                return a["e"]["name"]
+            return None
+        m = _re.match(r"^(\w+)(->[\w.>-]+)$", atom)
+        if m and m.group(1) in argmap:
+            a = argmap[m.group(1)]
+            if a["k"] == "ref":
+                return a["name"] + m.group(2)
+            return None
+        return None
+
+    failed = []
+
+    def map_atom(atom):
+        if atom.startswith("?"):
+            return Lin({atom + tag: 1})
+        if atom in argmap:
+            la = linearize(argmap[atom], st.subst)
+            if la is None:
+                failed.append(atom)
+                return Lin({atom + tag: 1})
+            return version(st, la)
+        ck_ = caller_key(atom)
+        if ck_ is not None:
+            return version(st, cur(ck_))
+        ids = set(_re.findall(r"[A-Za-z_]\w*", atom.split("#")[0]))
+        if ids & glocals:
+            # an opaque value of the helper's own: a fresh unknown per call
+            if ids & set(params):
+                # textual rename when every mentioned parameter is bound to a plain variable
+                out_ = atom
+                for q in ids & set(params):
+                    a = argmap[q]
+                    if a["k"] != "ref" or (ids & glocals) - set(params):
+                        return Lin({atom + tag: 1})
+                    out_ = _re.sub(r"(?<![\w>.])%s(?![\w])" % _re.escape(q), a["name"], out_)
+                return version(st, Lin({out_.split("#")[0]: 1}))
+            return Lin({atom + tag: 1})
+        return version(st, Lin({atom.split("#")[0]: 1})) if "#" not in atom else Lin({atom + tag: 1})
+
+    def map_lin(l):
+        if isinstance(l, tuple):
+            return (l[0], map_lin(l[1]))
+        o = Lin(k=l.k)
+        for a_, v_ in l.c.items():
+            o = o + map_atom(a_).scale(v_)
+        return o
+
+    ns = st.copy()
+    ns.hyps += [map_lin(h) for h in hyps_g]
+    effects = {}
+    for k_, v_ in subst_g.items():
+        if k_ in ("__havoc__", "__callhavoc__"):
+            effects[k_] = Lin(k=1)
+            continue
+        if not isinstance(v_, Lin):
+            continue
+        ck_ = caller_key(k_)
+        if ck_ is None:
+            continue
+        effects[ck_] = map_lin(v_)
+    ret = map_lin(rl) if rl is not None else None
+    for k_, v_ in effects.items():
+        ns.subst[k_] = v_
+        if not k_.startswith("__"):
+            ns.epoch[k_] = ns.epoch.get(k_, 0) + 1
+    if ret is not None:
+        ns.subst[key(call)] = ret
+    if failed:
+        ns.subst["__havoc__"] = Lin(k=1)
+    return ns
 
 
 def path_states(func, target_nid, init_hyps=None, max_paths=4000, header_hyps=None,
-                assume_fields=None, base_case=False, call_writes=None):
+                assume_fields=None, base_case=False, call_writes=None, inclusive=False,
+                inline=None, after_call=None, _depth=0):
     """For every acyclic path from the entry to the event: (subst, hyps, items).  Scalar
     locals, globals and `param->field` lvalues are tracked by substitution, so plain atoms
     always denote *initial* values and facts never go stale; compound atoms (`(*loc)`,
     `a[i]`) that mention a name stored since are versioned; ?: values are resolved by the
-    path's own branch."""
+    path's own branch.  `inline(call)` may name a helper (Func, or (Func, kwargs for its own
+    path_states)) whose exit states are substituted at the call: one state per exit path of
+    the helper, its stores through pointer parameters, to pointed-to struct fields and to
+    globals applied, its return value bound to the call expression."""
     import re as _re
     from .cfg import paths_to
     from .util import path_consistent
@@ -572,122 +786,178 @@ def path_states(func, target_nid, init_hyps=None, max_paths=4000, header_hyps=No
     out = []
     lsn = loop_stored_names(func)
     loops_ = cfg.loops()
-    for items in paths_to(cfg, cfg.entry, target_nid, max_paths=max_paths):
-        if not path_consistent(func, items):
-            continue
-        subst = {}
-        hyps = list(init_hyps or [])
-        byid = {}
-        epoch = {}
-        blks = [x for x in items if x[0] == "blk"]
-        items_last_blk = blks[-1] if blks else None
 
-        def version(l):
-            if l is None:
-                return None
-            if isinstance(l, tuple):
-                return (l[0], version(l[1]))
-            if not epoch:
-                return l
-            o = Lin(k=l.k)
-            for a, v in l.c.items():
-                b = a
-                if not (a.isidentifier() or a in epoch or a.startswith("?")):
-                    tags = []
-                    for nm, e in epoch.items():
-                        if _re.search(r"(?<![\w>.])%s(?![\w])" % _re.escape(nm), a):
-                            tags.append("%s%d" % (nm, e))
-                    if tags:
-                        b = a + "#" + ",".join(sorted(tags))
-                o.c[b] = o.c.get(b, 0) + v
-            return o
+    def version(st, l):
+        if l is None:
+            return None
+        if isinstance(l, tuple):
+            return (l[0], version(st, l[1]))
+        if not st.epoch:
+            return l
+        o = Lin(k=l.k)
+        for a, v in l.c.items():
+            b = a
+            if not (a.isidentifier() or a in st.epoch or a.startswith("?")):
+                tags = []
+                for nm, e in st.epoch.items():
+                    if _re.search(r"(?<![\w>.])%s(?![\w])" % _re.escape(nm), a.split("#")[0]):
+                        tags.append("%s%d" % (nm, e))
+                if tags and "#" not in a:
+                    b = a + "#" + ",".join(sorted(tags))
+            o.c[b] = o.c.get(b, 0) + v
+        return o
 
-        def lin_now(e):
-            _lin._COND_RES[0] = byid
+    def lin_now(st, e):
+        _lin._COND_RES[0] = st.byid
+        try:
+            return version(st, linearize(e, st.subst))
+        finally:
+            _lin._COND_RES[0] = None
+
+    def step(st, it, items_last_blk):
+        subst, epoch = st.subst, st.epoch
+        if it[0] == "blk":
+            # entering a loop header: everything the loop stores has an unknown value
+            # (inductive step).  The caller's header hypotheses are re-assumed only for
+            # loops that store one of the fields they speak about (their base case is a
+            # separate obligation: base_case=True proves them on arrival at the header).
+            if it[1] in lsn and lsn[it[1]]:
+                if base_case and it is items_last_blk:
+                    return [st]
+                hb = cfg.blocks[it[1]]
+                body_ = loops_.get(it[1], set())
+                first = None
+                if not any(s_ is not None and s_ not in body_ for s_ in hb.succ):
+                    # bottom-tested loop (do-while): the first pass starts from the values on
+                    # arrival; a later pass from unknown values for which the continuation
+                    # test held
+                    first = st.copy()
+                for nm in lsn[it[1]]:
+                    subst[nm] = Lin({"?%s@h%d" % (nm, it[1]): 1})
+                    epoch[nm] = epoch.get(nm, 0) + 1
+                if first is not None:
+                    conds = _reentry_conds(func, it[1], body_)
+                    if conds is None:
+                        subst["__havoc__"] = Lin(k=1)
+                    else:
+                        _lin._COND_RES[0] = None
+                        for cid, tr in conds:
+                            st.hyps += [version(st, h) for h in cmp_constraints(func.nodes[cid], tr, subst)]
+                if header_hyps and (assume_fields is None or
+                                    any(nm.endswith("->" + fl) for nm in lsn[it[1]] for fl in assume_fields)):
+                    st.hyps += header_hyps(subst)
+                if first is not None:
+                    return [first, st]
+            return [st]
+        if it[0] == "br":
+            c = func.nodes[it[1]]
+            st.byid[c["id"]] = it[2]
+            _lin._COND_RES[0] = st.byid
             try:
-                return version(linearize(e, subst))
+                st.hyps += [version(st, h) for h in cmp_constraints(c, it[2], subst)]
+                cc, tt = negate_truth(c, it[2])
+                if not (cc["k"] == "call" and key(cc) in subst):
+                    st.hyps += helper_constraints(func, c, it[2], subst, lambda l: version(st, l))
             finally:
                 _lin._COND_RES[0] = None
+            for h in st.hyps[-4:]:
+                if isinstance(h, Lin) and h.is_const() and h.k < 0:
+                    return []                      # this branch contradicts a known value
+            return [st]
+        n = func.nodes.get(it[1])
+        if n is None:
+            return [st]
+        if n["k"] == "call":
+            for a in n["args"]:
+                a = strip_casts(a)
+                if a["k"] == "un" and a["op"] == "&" and a["e"]["k"] == "ref":
+                    nm = a["e"]["name"]
+                    epoch[nm] = epoch.get(nm, 0) + 1
+                    subst[nm] = Lin({"?%s@%d" % (nm, it[1]): 1})
+            g = inline(n) if inline and _depth < 2 else None
+            gkw = None
+            if isinstance(g, tuple):
+                g, gkw = g
+            if g is not None:
+                gkw0 = gkw
+                gkw = dict(gkw or {})
+                gkw.setdefault("inline", inline)
+                summ = call_summary(g, gkw, _depth, cache_key=id(gkw0))
+                if summ is not None:
+                    outs = []
+                    for sm in summ:
+                        ns = _map_summary(func, n, g, sm, st, version)
+                        if ns is None:
+                            outs = None
+                            break
+                        outs.append(ns)
+                    if outs is not None:
+                        return outs
+            if call_writes:
+                # a callee that stores fields of a struct passed by pointer: their values
+                # are unknown afterwards (and the path is marked: a failed goal on it is
+                # `not decided`, not a contradiction)
+                names = call_writes(n)
+                for nm in names:
+                    epoch[nm] = epoch.get(nm, 0) + 1
+                    subst[nm] = Lin({"?%s@c%d" % (nm, it[1]): 1})
+                    subst["__callhavoc__"] = Lin(k=1)
+                if after_call and names:
+                    st.hyps += after_call(n, subst)
+            return [st]
+        tgt = op = rhs = None
+        if n["k"] == "bin" and n["op"] in ("=", "+=", "-="):
+            tgt, op, rhs = n["l"], n["op"], n["r"]
+        elif n["k"] == "un" and n["op"] in ("post++", "pre++", "post--", "pre--"):
+            tgt, op = n["e"], n["op"]
+        elif n["k"] == "var" and "init" in n:
+            tgt, op, rhs = n, "=", n["init"]
+        if tgt is None:
+            return [st]
+        if tgt["k"] in ("ref", "var"):
+            nm = tgt["name"]
+        elif tgt["k"] == "member" or (tgt["k"] == "un" and tgt["op"] == "*" and tgt["e"]["k"] == "ref"):
+            nm = key(tgt)
+        else:
+            return [st]
+        old = subst.get(nm) or Lin({nm: 1})
+        if op == "=":
+            val = strip_casts(rhs)
+            new = lin_now(st, val) if val is not None else None
+            if new is not None and val["k"] == "cond" and strip_casts(val["c"])["id"] not in st.byid:
+                new = None
+        elif op in ("+=", "-="):
+            r = lin_now(st, strip_casts(rhs))
+            new = None if r is None else (old + r if op == "+=" else old - r)
+        else:
+            new = old + Lin(k=1 if "++" in op else -1)
+        subst[nm] = new if new is not None else Lin({"?%s@%d" % (nm, it[1]): 1})
+        epoch[nm] = epoch.get(nm, 0) + 1
+        return [st]
 
+    if target_nid == "exit":
+        from .cfg import enum_paths
+        all_items = [it_ for it_, end_ in enum_paths(cfg, cfg.entry, {cfg.exit}, max_paths=max_paths)
+                     if end_ == cfg.exit]
+    else:
+        all_items = paths_to(cfg, cfg.entry, target_nid, max_paths=max_paths)
+    for items in all_items:
+        if not path_consistent(func, items):
+            continue
+        if inclusive and target_nid != "exit":
+            items = items + [("ev", target_nid)]     # state after the event itself
+        blks = [x for x in items if x[0] == "blk"]
+        items_last_blk = blks[-1] if blks else None
+        states = [_St(hyps=list(init_hyps or []))]
         for it in items:
-            if it[0] == "blk":
-                # entering a loop header: everything the loop stores has an unknown value
-                # (inductive step).  The caller's header hypotheses are re-assumed only for
-                # loops that store one of the fields they speak about (their base case is a
-                # separate obligation: base_case=True proves them on arrival at the header).
-                if it[1] in lsn and lsn[it[1]]:
-                    if base_case and it is items_last_blk:
-                        continue
-                    for nm in lsn[it[1]]:
-                        subst[nm] = Lin({"?%s@h%d" % (nm, it[1]): 1})
-                        epoch[nm] = epoch.get(nm, 0) + 1
-                    # bottom-tested loop (do-while): on re-entry the continuation test also
-                    # holds, which this acyclic walk does not model -> failures there are
-                    # `not decided`
-                    hb = cfg.blocks[it[1]]
-                    body_ = loops_.get(it[1], set())
-                    if not any(s_ is not None and s_ not in body_ for s_ in hb.succ):
-                        subst["__havoc__"] = Lin(k=1)
-                    if header_hyps and (assume_fields is None or
-                                        any(nm.endswith("->" + fl) for nm in lsn[it[1]] for fl in assume_fields)):
-                        hyps += header_hyps(subst)
-                continue
-            if it[0] == "br":
-                c = func.nodes[it[1]]
-                byid[c["id"]] = it[2]
-                _lin._COND_RES[0] = byid
-                try:
-                    hyps += [version(h) for h in cmp_constraints(c, it[2], subst)]
-                    hyps += helper_constraints(func, c, it[2], subst, version)
-                finally:
-                    _lin._COND_RES[0] = None
-                continue
-            n = func.nodes.get(it[1])
-            if n is None:
-                continue
-            if n["k"] == "call":
-                for a in n["args"]:
-                    a = strip_casts(a)
-                    if a["k"] == "un" and a["op"] == "&" and a["e"]["k"] == "ref":
-                        nm = a["e"]["name"]
-                        epoch[nm] = epoch.get(nm, 0) + 1
-                        subst[nm] = Lin({"?%s@%d" % (nm, it[1]): 1})
-                if call_writes:
-                    # a callee that stores fields of a struct passed by pointer: their values
-                    # are unknown afterwards (and the path is marked: a failed goal on it is
-                    # `not decided`, not a contradiction)
-                    for nm in call_writes(n):
-                        epoch[nm] = epoch.get(nm, 0) + 1
-                        subst[nm] = Lin({"?%s@c%d" % (nm, it[1]): 1})
-                        subst["__havoc__"] = Lin(k=1)
-                continue
-            tgt = op = rhs = None
-            if n["k"] == "bin" and n["op"] in ("=", "+=", "-="):
-                tgt, op, rhs = n["l"], n["op"], n["r"]
-            elif n["k"] == "un" and n["op"] in ("post++", "pre++", "post--", "pre--"):
-                tgt, op = n["e"], n["op"]
-            elif n["k"] == "var" and "init" in n:
-                tgt, op, rhs = n, "=", n["init"]
-            if tgt is None:
-                continue
-            if tgt["k"] in ("ref", "var"):
-                nm = tgt["name"]
-            elif tgt["k"] == "member" or (tgt["k"] == "un" and tgt["op"] == "*" and tgt["e"]["k"] == "ref"):
-                nm = key(tgt)
-            else:
-                continue
-            old = subst.get(nm) or Lin({nm: 1})
-            if op == "=":
-                val = strip_casts(rhs)
-                new = lin_now(val) if val is not None else None
-                if new is not None and val["k"] == "cond" and strip_casts(val["c"])["id"] not in byid:
-                    new = None
-            elif op in ("+=", "-="):
-                r = lin_now(strip_casts(rhs))
-                new = None if r is None else (old + r if op == "+=" else old - r)
-            else:
-                new = old + Lin(k=1 if "++" in op else -1)
-            subst[nm] = new if new is not None else Lin({"?%s@%d" % (nm, it[1]): 1})
-            epoch[nm] = epoch.get(nm, 0) + 1
-        out.append((subst, hyps, items))
+            nxt = []
+            for st in states:
+                nxt += step(st, it, items_last_blk)
+            states = nxt
+            if len(states) > 64:
+                raise OverflowError("too many helper exit states")
+            if not states:
+                break
+        for st in states:
+            out.append((st.subst, st.hyps, items))
     return out
